@@ -32,38 +32,72 @@ func c04Probes(bs, max int) []int {
 	return out
 }
 
-// c04CheckFile: path name holds exactly ref[:n] (n symbolic), read through a fresh handle.
-func c04CheckFile(fsys *FileSystem, name string, ref []byte, n int, bs int) {
-	max := len(ref) + 8
-	vp.NoPanic()
+// c04CheckFile: path name holds exactly ref[:n] (n symbolic, n >= nLo), read through a fresh
+// handle: a first Read of nLo bytes (all inside the file), then the rest with one Read into a
+// buffer that is larger than what can remain, then a Read that must report the end.
+func c04CheckFile(fsys *FileSystem, name string, ref []byte, n int, nLo int, bs int) {
+	c04NoPanic()
 	g, err := fsys.OpenFile(name, os.O_RDONLY)
-	vp.AllowPanic()
+	c04AllowPanic()
 	vp.Assert(err == nil, "file written by the library opens")
-	vp.NoPanic()
-	buf, got, err := c04ReadAll(g, max)
-	vp.AllowPanic()
-	vp.Assert(err == nil, "reading a file the library wrote does not fail")
-	vp.Assert(got == n, "file length = reference length")
-	for _, j := range c04Probes(bs, len(ref)) {
-		if j < n {
-			vp.Assert(buf[j] == ref[j], "file content = reference content")
+	if nLo > 0 {
+		vp.AllocCap(nLo)
+		head := make([]byte, nLo)
+		c04NoPanic()
+		got, err := g.Read(head)
+		c04AllowPanic()
+		if err != nil {
+			vp.Assert(err == io.EOF, "reading a file the library wrote does not fail")
+			vp.Assert(n == nLo, "io.EOF only at the end of the file")
+		}
+		vp.Assert(got == nLo, "a Read inside the file fills the buffer")
+		for _, j := range c04Probes(bs, nLo) {
+			vp.Assert(head[j] == ref[j], "file content = reference content")
+		}
+	}
+	tailMax := len(ref) - nLo + 8
+	vp.AllocCap(tailMax)
+	tail := make([]byte, tailMax)
+	c04NoPanic()
+	// (Seek makes the handle offset a constant again: the device model reads at constant offsets)
+	_, err = g.(io.Seeker).Seek(int64(nLo), io.SeekStart)
+	c04AllowPanic()
+	vp.Assert(err == nil, "seek inside the file accepted")
+	c04NoPanic()
+	got, err := g.Read(tail)
+	c04AllowPanic()
+	if err != nil {
+		vp.Assert(err == io.EOF, "reading a file the library wrote does not fail")
+	}
+	vp.Assert(nLo+got == n, "file length = reference length")
+	if tailMax <= 64 {
+		for j := 0; j < tailMax-8; j++ {
+			if nLo+j < n {
+				vp.Assert(tail[j] == ref[nLo+j], "file content = reference content")
+			}
+		}
+	} else {
+		for _, j := range c04Probes(bs, len(ref)) {
+			if j >= nLo && j < n {
+				vp.Assert(tail[j-nLo] == ref[j], "file content = reference content")
+			}
 		}
 	}
 }
 
 // c04WriteAt: open (creating if asked), seek to off if off >= 0, write data, all accepted.
 func c04WriteAt(fsys *FileSystem, name string, flag int, off int64, data []byte) {
-	vp.NoPanic()
+	c04NoPanic()
 	f, err := fsys.OpenFile(name, flag)
-	vp.AllowPanic()
+	c04AllowPanic()
 	vp.Assert(err == nil, "open for writing accepted")
 	if off >= 0 {
 		_, err = f.Seek(off, io.SeekStart)
 		vp.Assert(err == nil, "seek accepted")
 	}
-	vp.NoPanic()
+	c04NoPanic()
 	n, err := f.Write(data)
-	vp.AllowPanic()
+	c04AllowPanic()
 	vp.Assert(err == nil, "write accepted")
 	vp.Assert(n == len(data), "write complete")
 }
@@ -80,9 +114,9 @@ func c04Window(fsys *FileSystem, dev *c04Dev, cfg c04Cfg, nblocks int) {
 }
 
 func c04Reopen(dev *c04Dev, size int64, cfg c04Cfg) *FileSystem {
-	vp.NoPanic()
+	c04NoPanic()
 	fs2, err := Read(dev, size, cfg.start, 512)
-	vp.AllowPanic()
+	c04AllowPanic()
 	vp.Assert(err == nil, "image written by the library re-opens")
 	return fs2
 }
@@ -100,9 +134,9 @@ func c04ScWriteRead(cfg c04Cfg) {
 	vp.AllocCap(maxL + 8)
 	dev.symCap = maxL + 8
 	c04WriteAt(fsys, "/f", os.O_CREATE|os.O_RDWR, -1, data[:l])
-	c04CheckFile(fsys, "/f", data, l, bs)
+	c04CheckFile(fsys, "/f", data, l, 0, bs)
 	fs2 := c04Reopen(dev, size, cfg)
-	c04CheckFile(fs2, "/f", data, l, bs)
+	c04CheckFile(fs2, "/f", data, l, 0, bs)
 	if l == 0 {
 		vp.Cover("empty file")
 	}
@@ -170,10 +204,13 @@ func c04ScTwoWrites(cfg c04Cfg, l1 int, extend bool) {
 	if o2+l2 > n {
 		n = o2 + l2
 	}
-	vp.AllocCap(maxR + 8)
-	c04CheckFile(fsys, "/f", ref, n, bs)
+	nLo := l1
+	if !extend || l1-4 < nLo {
+		nLo = l1 - 4
+	}
+	c04CheckFile(fsys, "/f", ref, n, nLo, bs)
 	fs2 := c04Reopen(dev, size, cfg)
-	c04CheckFile(fs2, "/f", ref, n, bs)
+	c04CheckFile(fs2, "/f", ref, n, nLo, bs)
 	if o2 > l1 {
 		vp.Cover("second write leaves a gap")
 	}
